@@ -232,6 +232,9 @@ theorem relStep_mono (vr : Variant) (T : Table) (mode : Mode)
     | exact partTuple_mono h _ _ _ _ _ _ _ _
     | exact processProcess_mono h _ _ _ _ _ _
     | exact callableCallable_mono h _ _ _ _ _ _ _ _ _
+    | (split
+       · exact callableCallable_mono h _ _ _ _ _ _ _ _ _
+       · exact restoreOnFail_mono _ _ (callableCallable_mono h _ _ _ _ _ _ _ _ _))
     | (split; exact Res.le_refl _; exact cycleLeft_mono h _ _ _ _)
 
 end
